@@ -1079,6 +1079,21 @@ def past4(ctx):
                 skip_edges.append(e[1])
     r_ = b.reach([b.entry], avoid=moves, avoid_edges=skip_edges)
     okq = bool(skip_edges) and not any(r in r_ for r in rets)
+    # the map-level truncate hands every existing queue to truncate_head: no shortcut for "nothing to evict"
+    for mb in ctx.f.bodies.values():
+        if mb.generic_dup() or not mb.path.startswith('mem::queues::MemQueues::') or mb.is_closure:
+            continue
+        ths = [c for c in mb.calls if c.node == b.id]
+        if not ths or not mb.ret_ty.startswith('std::option::Option<usize'):
+            continue
+        somes = [e for e in mb.exits() if e['kind'] == 'some']
+        flm = flow_of(mb)
+        t_th = set()
+        for c in ths:
+            t_th |= flm.forward(set(flm.call_result_nodes(c)))
+        okm = bool(somes) and all(e['ops'] and flm.op_tainted(e['ops'][0], t_th) for e in somes)
+        ctx.check(okm, '%s:some-is-truncate-head' % mb.path, mb.span, 'Some(n) is only ever the result of truncate_head',
+                  'the queue map can answer a truncation without handing the queue to truncate_head (a shortcut for an empty queue): the queue would not move forward to the truncation point')
     ctx.check(okq, 'no-move-only-when-behind', b.span, 'start_position stays put only on the `start_position > truncate position` edge',
               'truncate_head can return without moving start_position although the truncation point is at or beyond it (e.g. on an empty queue): positions up to the truncation point would be handed out again')
 
